@@ -12,7 +12,7 @@ CONSTANTS
   Dev_SplitSignals = TRUE
   Dev_RestoreNoResume = FALSE
   Dev_RecreateErrorLost = TRUE
-  Dev_ArmIgnoresClose = TRUE
+  Dev_ArmIgnoresClose = FALSE
   Dev_DrainDropsLoss = TRUE
   Hist = FALSE
 SPECIFICATION TSpec
